@@ -312,7 +312,7 @@ __sexy_add(dt_sexy_t sx, struct dt_dtdur_s dur)
 static const char ymdhms_dflt[] = "%FT%T";
 static const char ymcwhms_dflt[] = "%Y-%m-%c-%wT%T";
 static const char ywdhms_dflt[] = "%rY-W%V-%uT%T";
-static const char ydhms_dflt[] = "%Y-%D";
+static const char ydhms_dflt[] = "%Y-%DT%T";
 static const char daisyhms_dflt[] = "%dT%T";
 static const char sexy_dflt[] = "%s";
 static const char bizsihms_dflt[] = "%dbT%T";
